@@ -6,12 +6,12 @@ set -u
 d="$1"; filt="${2:-}"
 w=/tmp/seedverify.$$
 git -C /repo worktree add -q --detach "$w" HEAD || exit 2
-export CARGO_TARGET_DIR=/tmp/seed/target CARGO_NET_OFFLINE=true
+export CARGO_TARGET_DIR=${SV_TARGET:-/tmp/sv-target} CARGO_NET_OFFLINE=true INSTA_UPDATE=no
 cd "$w"
 git apply "$d/demo.diff" || { echo "demo.diff does not apply"; cd /; git -C /repo worktree remove --force "$w"; exit 2; }
 echo "== demo without patch"; cargo test --offline -p rustic_core $filt 2>&1 | grep -E "^test result|^test .*(ok|FAILED)|error(\[|:)" | head -20
 git apply "$d/patch.diff" || { echo "patch.diff does not apply"; cd /; git -C /repo worktree remove --force "$w"; exit 2; }
 echo "== demo with patch"; cargo test --offline -p rustic_core $filt 2>&1 | grep -E "^test result|^test .*(ok|FAILED)|error(\[|:)" | head -20
 git apply -R "$d/demo.diff"
-echo "== baseline with patch"; /verif/tools/baseline.sh "$w" /tmp/seed/target | head -8
+echo "== baseline with patch"; /verif/tools/baseline.sh "$w" ${SV_TARGET:-/tmp/sv-target} | head -8
 cd /; git -C /repo worktree remove --force "$w"
